@@ -102,6 +102,14 @@ fn layer(components: &[FeelType], out: &mut Vec<FeelType>) {
     out.push(FeelType::Function(vec![], Box::new(t.clone())));
   }
   out.push(ctx_type(&[]));
+  // entry names that differ in letter case only are different names
+  for t in [FeelType::Number, FeelType::String] {
+    out.push(ctx_type(&[("Age", t.clone())]));
+    out.push(ctx_type(&[("age", t.clone())]));
+    for u in [FeelType::Number, FeelType::String] {
+      out.push(ctx_type(&[("Age", t.clone()), ("age", u.clone())]));
+    }
+  }
   for t in components {
     for u in components {
       out.push(ctx_type(&[("a", t.clone()), ("b", u.clone())]));
@@ -213,6 +221,14 @@ fn sample_values() -> Vec<Value> {
     ctx(vec![("a", num(1))]),
     ctx(vec![("a", num(1)), ("b", s("x"))]),
     ctx(vec![("a", list(vec![num(1)]))]),
+    // entries whose value is null; entry names differing in letter case only
+    ctx(vec![("a", Value::Null(None))]),
+    ctx(vec![("a", Value::Null(None)), ("b", num(1))]),
+    ctx(vec![("a", num(1)), ("b", Value::Null(None))]),
+    ctx(vec![("age", s("x"))]),
+    ctx(vec![("Age", s("x"))]),
+    ctx(vec![("Age", num(1)), ("age", s("x"))]),
+    list(vec![ctx(vec![("a", Value::Null(None)), ("b", num(1))])]),
     list(vec![ctx(vec![("a", num(1))])]),
     list(vec![ctx(vec![("a", num(1))]), ctx(vec![("a", num(2))])]),
     list(vec![ctx(vec![("a", num(1))]), ctx(vec![("a", s("x"))])]),
